@@ -85,7 +85,7 @@ pub fn run(tier: Tier) -> Report {
               lines/points of true scale. distinct_nontrivial = sampled distinct (h, k) bit patterns");
     rep.assume("numerical differentiation error < 1e-9 relative (step 1e-4 rad, reduced near the poles); conformality tolerance 1e-7 for rigorous, 1e-5 for btmerc/omerc (millimetre-class methods)");
     let ellipsoids: Vec<String> = match tier {
-        Tier::Quick => vec!["GRS80".into(), "intl".into(), "sphere".into(), "6378137,150".into()],
+        Tier::Quick => vec!["GRS80".into(), "intl".into(), "sphere".into(), "6378137,150".into(), "CPM".into()],
         Tier::Thorough => {
             let mut v: Vec<String> = crate::props::c01::ellipsoid_names(Tier::Thorough).into_iter().filter(|e| catch(|| Ellipsoid::named(e).is_ok()).unwrap_or(false)).collect();
             v.extend(["6378137,150".to_string(), "6378137,200".to_string(), "6378137,1000".to_string()]);
@@ -276,6 +276,10 @@ pub fn run(tier: Tier) -> Report {
                 check_scale("k_0 at the centre", get("lonc", 0.), get("latc", 0.), k0);
                 if def.contains("variant") || !def.contains("gamma_c") {
                     check_origin("variant B / Laborde: (lonc, latc)", get("lonc", 0.), get("latc", 0.));
+                } else if get("latc", 0.) == 0. {
+                    // variant A: the false origin is the natural origin, where the initial line crosses the
+                    // (aposphere) equator - for a centre on the equator that is the centre itself
+                    check_origin("variant A with the centre on the equator: (lonc, 0)", get("lonc", 0.), 0.);
                 }
             }
             _ => {}
